@@ -97,8 +97,8 @@ func buildShared(sc sharedScen) (func(), func(*vsched.Result) []string) {
 			}
 			bad = append(bad, "scheduler-"+k)
 		}
-		if len(res.Problems()) > 0 {
-			return dedup(bad)
+		if res.Deadlock != "" || res.Livelock || len(res.Panics) > 0 {
+			return dedup(bad) // the execution did not complete: values are not judged
 		}
 		n := sc.Threads * sc.Draws
 		want := make([]uint32, 0, n)
@@ -107,7 +107,7 @@ func buildShared(sc sharedScen) (func(), func(*vsched.Result) []string) {
 				want = append(want, uint32(probeOut(i)>>31))
 			}
 			if p.state != n {
-				bad = append(bad, fmt.Sprintf("underlying-state-%d-after-%d-draws", p.state, n))
+				bad = append(bad, "lost-or-extra-state") // the underlying source advanced p.state times for n draws
 			}
 		} else {
 			ref := rand.New(rand.NewSource(sharedSeed))
